@@ -909,6 +909,11 @@ func (s *Silences) Set(ctx context.Context, sil *pb.Silence) error {
 	if err := s.checkSizeLimits(msil); err != nil {
 		return err
 	}
+	// Make sure the new silence can be stored before the previous one is
+	// expired, so that a failing Set leaves the state untouched.
+	if _, err := marshalMeshSilence(msil); err != nil {
+		return err
+	}
 
 	if ok && getState(prev, s.nowUTC()) != SilenceStateExpired {
 		// We cannot update the silence, expire the old one to leave a history of
